@@ -65,4 +65,16 @@ func init() {
 		Gen: genC17, Exec: execC17,
 		Assumes: []string{"only the scope-stack half of C17 is claimed; path resolution through structs/arrays/pointers (a pure function) is not", "values agree when equal up to representation (a struct and its JSON-tag map)"},
 	})
+	register(&Driver{
+		ID: "C15", Level: "exploration",
+		Rule: "one run = one history of 4-12 steps from {edit page / component / layout / side file to another immutable version (content edit, front-matter edit, invalid, deleted, restored), clock step, render via Vue.Render / Load.Render / RenderFile / RenderFragment / RenderString} on one long-lived engine over the simulated fs; mtimes from a 1ns/1s/2s universe with equal, backward and zero values; 25% of runs add fs faults (eio, enoent, perm, short read, read error): the faulted render is not compared, every later one is; after every render the result is compared with a new engine on the current files (either version accepted only when the cache cannot tell them apart by mtime); distinct = distinct (edit kind x file role x mtime relation) and render entry points",
+		Runs: func(tier string) int {
+			if tier == "thorough" {
+				return 60000
+			}
+			return 3000
+		},
+		Gen: genC15, Exec: execC15,
+		Assumes: []string{"what an engine reads once at construction (theme.yml, data/*.yml, the set of component names) is held fixed within a history", "equal-mtime edits as the cache sees them and zero mtimes are excluded from the freshness claim, as the cache documents", "a render during which an injected fs fault fired is not itself compared (the statement is silent about it); the renders after it are"},
+	})
 }
